@@ -2,7 +2,7 @@
 from ..rules import dispatch, counters, optimize, process, search
 
 EXPLANATION = (
-    "Static analysis of the reducer's shape: each worker exit path sends exactly one completion marker (worker id, None, statistics) as its last message and none from an iteration that goes on; the parent's counter starts at len(solvers), is decremented exactly on a marker, the loop runs exactly while it is positive and is not left early; every solution message is yielded once unmodified / compared with cmp(new[v], incumbent[v]) and kept iff there is no incumbent or cmp holds; minimize<->('minimize_and_queue', lt), maximize<->('maximize_and_queue', gt); each message overwrites the statistics slot of its own worker; processes are started with their own index and the shared queue. Order-independence follows from this shape; equality with the sequential multiset needs C02/C12. Also: a per-worker 'finished' list consulted by the liveness test is created all-false inside the call and set on the marker path; the 13 aggregated statistics use sum (max for depth) of the counter with the same name."
+    "Static analysis of the reducer's shape: each worker exit path sends exactly one completion marker (worker id, None, statistics) as its last message and none from an iteration that goes on; the parent's counter starts at len(solvers), is decremented exactly on a marker, the loop runs exactly while it is positive and is not left early; every solution message is yielded once unmodified / compared with cmp(new[v], incumbent[v]) and kept iff there is no incumbent or cmp holds; minimize<->('minimize_and_queue', lt), maximize<->('maximize_and_queue', gt); each message overwrites the statistics slot of its own worker; processes are started with their own index and the shared queue. Order-independence follows from this shape; equality with the sequential multiset needs C02/C12. Also: a per-worker 'finished' list consulted by the liveness test is created all-false inside the call and set on the marker path; the 13 aggregated statistics use sum (max for depth) of the counter with the same name. Round 3: every solution of a part is delivered exactly once by the worker; no join of a worker that may still be writing; the function addresses are taken per call in the process that uses them; get_statistics may be a comprehension over a constant label table."
 )
 
 
